@@ -1,8 +1,8 @@
 #!/bin/bash
 # try_seeded_ws.sh <Dir>... : like try_seeded.sh but in the private workspace /tmp/w/regress (copy of /verif + worktree of /repo HEAD),
 # so /repo and /verif stay untouched (background runs use /repo itself). Dir = name under /tmp/m with out/<n>/patch.diff
-W=/tmp/w/regress
-[ -d $W ] || /verif/tools/mk_workspace.sh regress >/dev/null
+W=/tmp/w/${TRY_WS:-regress}
+[ -d $W ] || /verif/tools/mk_workspace.sh ${TRY_WS:-regress} >/dev/null
 rsync -a --exclude .git --exclude evidence --exclude replays --exclude __pycache__ --exclude .lake /verif/ $W/verif/
 cd $W/verif; export S2T_REPO=$W/repo
 git -C $W/repo checkout -q --detach $(git -C /repo rev-parse HEAD); git -C $W/repo checkout -- .; git -C $W/repo clean -fdq
